@@ -117,16 +117,26 @@ def values(prog, rep):
               f"must return the dict built in this call (a fresh dict), found {show(rt)[:80]}")
     # no branching on given anywhere in the conditional distribution's evaluation methods
     bad = []
+    _SHAPE = (G("numpy.ndim"), G("numpy.shape"), G("numpy.size"), G("len"), G("numpy.isscalar"))
+
+    def value_test(t, sub):
+        # a test of the SHAPE of given (how many conditioning values there are) is not a test of its values
+        if t[0] == "call" and t[1] in _SHAPE and len(t[2]) == 1 and t[2][0] == sub:
+            return False
+        if t == sub:
+            return True
+        from vstat.terms import children
+        return any(value_test(c, sub) for c in children(t))
     for name in ("_get_param_values", "pdf", "cdf", "icdf", "draw_sample"):
         f = prog.func(f"{CD}.{name}")
         bb = builder(prog, f, inline=False)
         for st in cfg_of(f).all_stmts():
             if isinstance(st, (ast.If, ast.While)):
                 t = bb.term(st.test, st)
-                if mentions(t, given):
+                if value_test(t, given):
                     bad.append(f"{name}:{st.lineno}")
             for node in ast.walk(st) if isinstance(st, (ast.Assign, ast.Return, ast.Expr)) else []:
-                if isinstance(node, ast.IfExp) and mentions(bb.term(node.test, st), given):
+                if isinstance(node, ast.IfExp) and value_test(bb.term(node.test, st), given):
                     bad.append(f"{name}:{st.lineno}")
     rep.check(not bad, "C08.values", f"{CD}:no-branch-on-given", "virocon/distributions.py", "no test depends on given",
               f"evaluation branches on the conditioning value at {bad}: scalar and vector given would take different paths")
@@ -147,9 +157,47 @@ def forward(prog, rep):
         if name == "draw_sample":
             want_kw.append(("random_state", P("random_state")))
         want = ("call", ("attr", ("attr", SELF, "distribution"), name), (P(first),), tuple(sorted(want_kw)))
+        per_value = None
+        if name == "draw_sample" and t[0] == "call" and t != want:
+            # sampling may re-shape the looked-up values (never change them): scalars broadcast to the shape of given
+            kwd = dict(t[3])
+            star = kwd.get("**")
+            if star is not None:
+                ok_alts, per_value = True, False
+                for a in alts(star):
+                    kind = _reshaped(a, gpv)
+                    ok_alts = ok_alts and (a == gpv or kind is not None)
+                    per_value = per_value or bool(kind)
+                if ok_alts:
+                    t = ("call", t[1], t[2], tuple(sorted([(k_, v_) for k_, v_ in t[3] if k_ != "**"] + [("**", gpv)])))
         rep.check(t == want and len(ret) == 1, "C08.forward", q, fn.where(ret[-1]),
                   f"self.distribution.{name}({first}, **self._get_param_values(given))",
                   f"must forward to the same-named template method with its own first argument and **_get_param_values(given); found {show(t)[:160]}")
+        if name == "draw_sample":
+            rep.check(bool(per_value), "C08.forward", q + ":per-value", fn.where(ret[-1]),
+                      "parameter values that do not vary with given are broadcast to its shape: one draw per conditioning value",
+                      "the number of draws is taken from the shapes of the parameter VALUES (Distribution._get_rvs_size): when no dependence function returns an "
+                      "array (constant functions, all parameters fixed) a vector of conditioning values gets ONE draw, repeated for every row of a joint sample; "
+                      "scalar values must be broadcast to np.shape(given) before they are forwarded")
+
+
+def _reshaped(a, gpv):
+    """For a dict comprehension over gpv.items() that keeps every key and hands on each value v either unchanged or as
+    np.broadcast_to(v, np.shape(given)): True if the broadcast form occurs, False if only v; None for anything else."""
+    from vstat.terms import top_alts
+    if not (a[0] == "comp" and a[1] == "dict" and a[2][0] == "tuple" and len(a[2][1]) == 2):
+        return None
+    if a[4] != ("call", ("attr", gpv, "items"), (), ()) or (len(a) > 5 and a[5]):
+        return None
+    k, val = a[2][1]
+    if not (k[0] == "key" and k[1] == gpv):
+        return None
+    v = ("sub", gpv, k)
+    bc = ("call", G("numpy.broadcast_to"), (v, ("call", G("numpy.shape"), (P("given"),), ())), ())
+    got = {x for _l, x in top_alts(val)}
+    if not got <= {v, bc}:
+        return None
+    return bc in got
 
 
 def keywords(prog, rep):
